@@ -781,6 +781,81 @@ spec fn map_tournament(g: AdjacencyMap) -> bool {
     forall|a: int, b: int| g.verts().contains(a) && g.verts().contains(b) && a != b ==> #[trigger] map_joined_once(g, a, b)
 }
 
+impl AdjacencyMap {
+    /*@fn impl=AdjacencyMap trait=Complement name=complement props=C11,C13
+    requires
+        self.wf(),
+    ensures
+        r.verts() == self.verts(),
+        forall|a: int, b: int| #![trigger r.has(a, b)] r.has(a, b) == (self.verts().contains(a) && self.verts().contains(b) && a != b && !self.has(a, b)),
+        r.wf(),
+    @closure 1 |p: (&usize, &BTreeSet<usize>)| -> (q: (usize, BTreeSet<usize>))
+    ensures
+        q.0 == *p.0,
+        q.1@ == vertices@.difference(p.1@).remove(*p.0),
+    @manual `let mut out_neighbors = vertices` => `let mut out_neighbors = vx_copied(vertices` :: Iterator::copied is a provided trait method: the call `X.copied()` goes through the wrapper `vx_copied(X)` (prelude/c13left_std.rs), part 1 of 2 (opening)
+    @manual `.copied()` => `)` :: part 2 of 2 (closing) of the `X.copied()` -> `vx_copied(X)` replacement
+    @fn_start
+        broadcast use vstd::laws_cmp::group_laws_cmp;
+        broadcast use vstd::std_specs::iter::group_iter_axioms;
+        broadcast use axiom_btree_set_from_iter;
+    @before `Self {`
+        proof {
+            // `vertices` is the set of POSITIONS 0..order, not the vertex set
+            assert forall|x: usize| vertices@.contains(x) == (x < order) by { lemma_range_set(order, vertices@, x); }
+            // the collected map has the keys of self and, at key k, the positions that are neither k nor successors of k
+            assert forall|src: Seq<(&usize, &BTreeSet<usize>)>, rem: Seq<(usize, BTreeSet<usize>)>, m: BTreeMap<usize, BTreeSet<usize>>|
+                map_items_of(self.arcs@, src) && rem.len() == src.len()
+                && (forall|k: int| 0 <= k < rem.len() ==> (#[trigger] rem[k]).0 == *src[k].0 && rem[k].1@ == vertices@.difference(src[k].1@).remove(*src[k].0))
+                && #[trigger] src.no_duplicates()
+                && #[trigger] <BTreeMap<usize, BTreeSet<usize>> as vstd::std_specs::iter::FromIteratorSpec<(usize, BTreeSet<usize>)>>::from_iter_ensures(rem, m)
+                implies complement_rows(*self, m@, vertices@) by {
+                lemma_collect_complement(*self, src, rem, m, vertices@);
+            }
+        }
+    @*/
+
+    /*@fn impl=AdjacencyMap trait=Complement name=complement rename=complement_contiguous props=C11,C13
+    requires
+        self.wf(),
+        self.contiguous(),
+    ensures
+        r.verts() == self.verts(),
+        forall|a: int, b: int| #![trigger r.has(a, b)] r.has(a, b) == (self.verts().contains(a) && self.verts().contains(b) && a != b && !self.has(a, b)),
+        r.wf(),
+    @closure 1 |p: (&usize, &BTreeSet<usize>)| -> (q: (usize, BTreeSet<usize>))
+    ensures
+        q.0 == *p.0,
+        q.1@ == vertices@.difference(p.1@).remove(*p.0),
+    @manual `let mut out_neighbors = vertices` => `let mut out_neighbors = vx_copied(vertices` :: Iterator::copied is a provided trait method: the call `X.copied()` goes through the wrapper `vx_copied(X)` (prelude/c13left_std.rs), part 1 of 2 (opening)
+    @manual `.copied()` => `)` :: part 2 of 2 (closing) of the `X.copied()` -> `vx_copied(X)` replacement
+    @fn_start
+        broadcast use vstd::laws_cmp::group_laws_cmp;
+        broadcast use vstd::std_specs::iter::group_iter_axioms;
+        broadcast use axiom_btree_set_from_iter;
+    @before `Self {`
+        proof {
+            // `vertices` is the set of POSITIONS 0..order, not the vertex set
+            assert forall|x: usize| vertices@.contains(x) == (x < order) by { lemma_range_set(order, vertices@, x); }
+            // the collected map has the keys of self and, at key k, the positions that are neither k nor successors of k
+            assert forall|src: Seq<(&usize, &BTreeSet<usize>)>, rem: Seq<(usize, BTreeSet<usize>)>, m: BTreeMap<usize, BTreeSet<usize>>|
+                map_items_of(self.arcs@, src) && rem.len() == src.len()
+                && (forall|k: int| 0 <= k < rem.len() ==> (#[trigger] rem[k]).0 == *src[k].0 && rem[k].1@ == vertices@.difference(src[k].1@).remove(*src[k].0))
+                && #[trigger] src.no_duplicates()
+                && #[trigger] <BTreeMap<usize, BTreeSet<usize>> as vstd::std_specs::iter::FromIteratorSpec<(usize, BTreeSet<usize>)>>::from_iter_ensures(rem, m)
+                implies complement_rows(*self, m@, vertices@) by {
+                lemma_collect_complement(*self, src, rem, m, vertices@);
+            }
+            // where ids are positions that is the complement
+            assert forall|q: AdjacencyMap| #[trigger] complement_rows(*self, q.arcs@, vertices@) implies
+                q.verts() == self.verts() && q.wf()
+                && (forall|a: int, b: int| #![trigger q.has(a, b)] q.has(a, b) == (self.verts().contains(a) && self.verts().contains(b) && a != b && !self.has(a, b))) by {
+                lemma_complement_result(*self, q, vertices@);
+            }
+        }
+    @*/
+}
+
 /// key a is among the first n items of the map's iterator
 spec fn processed(items: Seq<(&usize, &BTreeSet<usize>)>, n: int, a: usize) -> bool {
     exists|k: int| 0 <= k < n && *(#[trigger] items[k]).0 == a
@@ -1139,6 +1214,87 @@ proof fn lemma_map_pair_count(g: AdjacencyMap)
                 }
             }
             assert(arcs =~= img);
+        }
+    }
+}
+
+/// m has the keys of g and, at key k, the elements of `full` that are neither k nor successors of k
+spec fn complement_rows(g: AdjacencyMap, m: Map<usize, BTreeSet<usize>>, full: Set<usize>) -> bool {
+    &&& m.dom() == g.arcs@.dom()
+    &&& forall|k: usize| g.arcs@.contains_key(k) ==> (#[trigger] m[k])@ == full.difference(g.arcs@[k]@).remove(k)
+}
+
+/// the set collected from `0..n`
+proof fn lemma_range_set(n: usize, s: Set<usize>, x: usize)
+    requires s == Seq::new(n as nat, |i: int| i as usize).to_set(),
+    ensures s.contains(x) == (x < n),
+{
+    let rem = Seq::new(n as nat, |i: int| i as usize);
+    if s.contains(x) { let k = choose|k: int| 0 <= k < rem.len() && rem[k] == x; }
+    if x < n { assert(rem[x as int] == x); }
+}
+
+proof fn lemma_collect_complement(g: AdjacencyMap, src: Seq<(&usize, &BTreeSet<usize>)>, rem: Seq<(usize, BTreeSet<usize>)>, m: BTreeMap<usize, BTreeSet<usize>>, full: Set<usize>)
+    requires
+        map_items_of(g.arcs@, src),
+        src.no_duplicates(),
+        rem.len() == src.len(),
+        forall|k: int| 0 <= k < rem.len() ==> (#[trigger] rem[k]).0 == *src[k].0 && rem[k].1@ == full.difference(src[k].1@).remove(*src[k].0),
+        <BTreeMap<usize, BTreeSet<usize>> as vstd::std_specs::iter::FromIteratorSpec<(usize, BTreeSet<usize>)>>::from_iter_ensures(rem, m),
+    ensures complement_rows(g, m@, full),
+{
+    axiom_btree_map_from_iter(rem, m);
+    assert forall|i: int, j: int| 0 <= i < j < rem.len() implies rem[i].0 != rem[j].0 by {
+        if rem[i].0 == rem[j].0 {
+            assert(*src[i].0 == *src[j].0);
+            assert(g.arcs@[*src[i].0] == *src[i].1 && g.arcs@[*src[j].0] == *src[j].1);
+            assert(src[i] == src[j]);
+        }
+    }
+    assert forall|k: usize| m@.dom().contains(k) == g.arcs@.dom().contains(k) by {
+        if m@.contains_key(k) {
+            let i = choose|i: int| 0 <= i < rem.len() && (#[trigger] rem[i]).0 == k;
+            assert(g.arcs@.contains_key(*src[i].0));
+        }
+        if g.arcs@.contains_key(k) {
+            let p = (&k, &g.arcs@[k]);
+            assert(src.contains(p));
+            let i = choose|i: int| 0 <= i < src.len() && src[i] == p;
+            assert(rem[i].0 == k);
+        }
+    }
+    assert(m@.dom() =~= g.arcs@.dom());
+    assert forall|k: usize| g.arcs@.contains_key(k) implies (#[trigger] m@[k])@ == full.difference(g.arcs@[k]@).remove(k) by {
+        let p = (&k, &g.arcs@[k]);
+        assert(src.contains(p));
+        let i = choose|i: int| 0 <= i < src.len() && src[i] == p;
+        assert(rem[i].0 == k);
+        assert(m@[rem[i].0] == rem[i].1);
+    }
+}
+
+proof fn lemma_complement_result(g: AdjacencyMap, q: AdjacencyMap, full: Set<usize>)
+    requires
+        g.wf(),
+        g.contiguous(),
+        forall|x: usize| full.contains(x) == (x < g.ord()),
+        complement_rows(g, q.arcs@, full),
+    ensures
+        q.verts() == g.verts(),
+        q.wf(),
+        forall|a: int, b: int| #![trigger q.has(a, b)] q.has(a, b) == (g.verts().contains(a) && g.verts().contains(b) && a != b && !g.has(a, b)),
+{
+    broadcast use lemma_map_verts_contains;
+    assert(q.verts() =~= g.verts());
+    assert forall|a: int, b: int| #![trigger q.has(a, b)] q.has(a, b) == (g.verts().contains(a) && g.verts().contains(b) && a != b && !g.has(a, b)) by {
+        if 0 <= a <= usize::MAX && 0 <= b <= usize::MAX && g.arcs@.contains_key(a as usize) {
+            assert(q.arcs@[a as usize]@ == full.difference(g.arcs@[a as usize]@).remove(a as usize));
+        }
+    }
+    assert(q.wf()) by {
+        assert(q.arcs@.len() == g.arcs@.len());
+        assert forall|u: usize, x: usize| q.arcs@.contains_key(u) && #[trigger] q.arcs@[u]@.contains(x) implies q.arcs@.contains_key(x) && x != u by {
+            assert(q.arcs@[u]@ == full.difference(g.arcs@[u]@).remove(u));
         }
     }
 }
